@@ -31,6 +31,10 @@ type base struct {
 	g1          *tsstestutil.GroupContext
 	router      *tsstypes.ContentRouter
 	baseTime    int64
+	// the content returned for the previous request of this worker, and a private copy of it: the bytes handed to
+	// one request must not change when a later request is encoded (no buffer shared between requests)
+	lastOut, lastCopy []byte
+	lastDesc          string
 }
 
 var buildMu sync.Mutex
